@@ -136,12 +136,16 @@ def build_argv(C):
         a += ["--pair-filter", C["pairfilter"]]
     paired = C.get("paired")
     ext = ".fastq" if C.get("fmt", "fastq") == "fastq" else ".fasta"
+    il = bool(C.get("interleaved")) and paired and C.get("demux", "none") == "none"
+    two = paired and not il
+    if il:
+        a += ["--interleaved"]
     if C.get("tooshortout"):
-        a += ["--too-short-output", "ts1" + ext] + (["--too-short-paired-output", "ts2" + ext] if paired else [])
+        a += ["--too-short-output", ("tsI" if il else "ts1") + ext] + (["--too-short-paired-output", "ts2" + ext] if two else [])
     if C.get("toolongout"):
-        a += ["--too-long-output", "tl1" + ext] + (["--too-long-paired-output", "tl2" + ext] if paired else [])
+        a += ["--too-long-output", ("tlI" if il else "tl1") + ext] + (["--too-long-paired-output", "tl2" + ext] if two else [])
     if C.get("untrimout"):
-        a += ["--untrimmed-output", "un1" + ext] + (["--untrimmed-paired-output", "un2" + ext] if paired else [])
+        a += ["--untrimmed-output", ("unI" if il else "un1") + ext] + (["--untrimmed-paired-output", "un2" + ext] if two else [])
     if C.get("info"):
         a += ["--info-file", "info.tsv"]
     demux = C.get("demux", "none")
@@ -150,8 +154,10 @@ def build_argv(C):
     elif demux == "combi":
         a += ["-o", "dm1-{name1}-{name2}" + ext, "-p", "dm2-{name1}-{name2}" + ext]
     else:
-        a += ["-o", "out1" + ext] + (["-p", "out2" + ext] if paired else [])
+        a += ["-o", ("outI" if il else "out1") + ext] + (["-p", "out2" + ext] if two else [])
     a += ["--json", "rep.json"]
+    if C.get("cores", 1) > 1:
+        a += ["-j", str(C["cores"]), "--buffer-size", str(C.get("buffer_size", 700))]
     if C.get("perm_seed") is not None:
         # permute the option groups (C10: the order on the command line must not matter);
         # -u/-U values keep their relative order
@@ -180,7 +186,7 @@ def build_argv(C):
             if k < len(free):
                 out.append(free[k])
         a = [x for g in out for x in g]
-    a += ["in1" + ext] + (["in2" + ext] if paired else [])
+    a += (["inI" + ext] if il else ["in1" + ext] + (["in2" + ext] if paired else []))
     return a
 
 
@@ -318,9 +324,13 @@ def observe_run(C, reads1, reads2, workdir):
 
     def as_bytes(recs):
         return fastq_bytes([(n, s, q if fastq else None) for n, s, q in recs])
-    inputs = {"in1" + ext: as_bytes(reads1)}
-    if paired:
-        inputs["in2" + ext] = as_bytes(reads2)
+    il = bool(C.get("interleaved")) and paired and C.get("demux", "none") == "none"
+    if il:
+        inputs = {"inI" + ext: as_bytes([r for pair in zip(reads1, reads2) for r in pair])}
+    else:
+        inputs = {"in1" + ext: as_bytes(reads1)}
+        if paired:
+            inputs["in2" + ext] = as_bytes(reads2)
     sampler = Sampler()
     orig_afa = cli.adapters_from_args
 
@@ -330,9 +340,23 @@ def observe_run(C, reads1, reads2, workdir):
         return ads, ads2
     cli.adapters_from_args = afa
     try:
-        res = run_cli(argv, inputs, workdir)
+        # the Locate oracle is always sampled in a one-core run (match_to is a pure function of the
+        # adapter and the sequence); with cores > 1 the observed run is a second, unwrapped execution
+        # under the virtual scheduler
+        serial_C = dict(C)
+        serial_C.pop("cores", None)
+        res = run_cli(build_argv(serial_C), inputs, workdir)
     finally:
         cli.adapters_from_args = orig_afa
+    if C.get("cores", 1) > 1 and res.exit == 0 and res.exception is None:
+        from harness import vmp
+        import random as _r
+        pol = vmp.RandomPolicy(C.get("sched_seed", 0), C.get("sched_weights"), ready_subsets=True)
+        res2, sched = vmp.run_virtual(lambda: run_cli(argv, inputs, workdir), pol)
+        if isinstance(res2, Exception) or sched.deadlock:
+            ev = dict(argv=" ".join(argv), exit=-1, failed=dict(exit=-1, errors=[], exc=f"deadlock/exception under virtual scheduler: {sched.deadlock} {res2!r}"))
+            return ev, sampler, res
+        res = res2
     ev = dict(argv=" ".join(argv), exit=res.exit)
     if res.exit != 0 or res.exception is not None or res.json is None:
         ev["failed"] = dict(exit=res.exit, errors=res.errors[:3], exc=repr(res.exception))
@@ -343,10 +367,10 @@ def observe_run(C, reads1, reads2, workdir):
     for fname, data in res.files.items():
         if fname.endswith(".tsv") or fname.endswith(".txt"):
             continue
-        m = re.match(r"^(out|ts|tl|un)([12])\.", fname)
+        m = re.match(r"^(out|ts|tl|un)([12I])\.", fname)
         if m:
             role = {"out": "out", "ts": "too_short", "tl": "too_long", "un": "untrimmed"}[m.group(1)]
-            roles[fname] = (role, int(m.group(2)), None, None)
+            roles[fname] = (role, 0 if m.group(2) == "I" else int(m.group(2)), None, None)
             continue
         m = re.match(r"^dm([12])-(.*?)(?:-(.*))?\.fast[aq]$", fname)
         if m:
@@ -362,6 +386,20 @@ def observe_run(C, reads1, reads2, workdir):
     files_bp = {1: 0, 2: 0}
     for fname, (role, side, n1, n2) in sorted(roles.items()):
         fmt, recs = parse_records(res.files[fname] or b"")
+        if side == 0:
+            # interleaved file: records alternate R1, R2; position = index of the pair
+            if len(recs) % 2:
+                interleave_odd = True
+            for pos2, (name, seq, qual) in enumerate(recs):
+                sd = 1 + pos2 % 2
+                m = idre.search(name)
+                k = int(m.group(1)) if m else -1
+                counts[sd][k] = counts[sd].get(k, 0) + 1
+                found[sd][k] = dict(role=role, fname=fname.replace("I", str(sd), 1), pos=pos2 // 2, name=name, seq=seq, qual=qual or "", n1=None, n2=None)
+                if role == "out":
+                    files_written[sd] += 1
+                    files_bp[sd] += len(seq)
+            continue
         for pos, (name, seq, qual) in enumerate(recs):
             m = idre.search(name)
             k = int(m.group(1)) if m else -1
@@ -425,6 +463,7 @@ def observe_run(C, reads1, reads2, workdir):
                   bp_out1=bp["output_read1"], bp_out2=nn(bp["output_read2"]) if paired else 0,
                   files_written=files_written[1], files_bp1=files_bp[1], files_bp2=files_bp[2] if paired else 0,
                   with1=nn(rc["read1_with_adapter"]), with2=nn(rc["read2_with_adapter"]),
+                  pa1=nn(bp["poly_a_trimmed_read1"]), pa2=nn(bp["poly_a_trimmed_read2"]),
                   qt1=nn(bp["quality_trimmed_read1"]), qt2=nn(bp["quality_trimmed_read2"]),
                   rc=nn(rc["reverse_complemented"]),
                   text_ok=text_report_ok(res.report, j), minimal_ok=True)
